@@ -221,6 +221,26 @@ def run(res, tier, seed):
         lines, _ = conform.program(rng, shapes=False)
         for cls, new, exp in inject(rng, lines):
             cases.append((cls, conform.text(new), exp, conform.text(lines)))
+    # a saved register (or ra) that a function saves in its prologue but uses and restores only inside
+    # a conditional region: a write before the branch is never undone on the path that skips the
+    # region (a nearer, legitimate write - the restore - lies on the other path)
+    for _ in range(4 if tier == "quick" else 40):
+        sk = rng.choice(["s0", "s1", "s5", "s11", "ra"])
+        other = "s0" if sk == "ra" else "ra"
+        frame = rng.choice([8, 16])
+        o1, o2 = rng.sample(range(0, frame, 4), 2)
+        use = [f"    mv {sk}, a1", "    jal ra, bar", f"    add a0, a0, {sk}"] if sk != "ra" else ["    jal ra, bar"]
+        pre = ["main:", "    li a0, 3", "    li a1, 4", "    jal ra, foo", "    li a7, 1", "    ecall", "    li a7, 10", "    ecall",
+               "foo:", f"    addi sp, sp, -{frame}", f"    sw {other}, {o1}(sp)", f"    sw {sk}, {o2}(sp)"]
+        post = [f"    {rng.choice(['beqz', 'blez'])} a0, foo_done"] + use + [f"    lw {sk}, {o2}(sp)", "foo_done:",
+                f"    lw {other}, {o1}(sp)", f"    addi sp, sp, {frame}", "    ret", "bar:", "    addi a0, a0, 1", "    ret"]
+        if sk == "ra":
+            # ra is also what `other` = s0 is not: keep s0 untouched; the conditional region calls bar and reloads ra
+            pass
+        inj = f"    addi {sk}, a1, 1" if sk != "ra" else "    jal ra, bar"
+        base_t = "\n".join(pre + post) + "\n"
+        new_t = "\n".join(pre + [inj] + post) + "\n"
+        cases.append(("clobber-before-conditional-restore", new_t, ("overwrite-callee-saved-register", {len(pre)}, None), base_t))
     inputs = [[("m.s", t)] for _, t, _, _ in cases]
     impl, models, bad = correspondence("lints", inputs)
     first = None
